@@ -1568,8 +1568,12 @@ func (l *lexer) linebreak() bool {
 			l.mark(0)
 		case '#':
 			// comment
-			hash = true
-			l.mark(-1)
+			if hash {
+				l.b.WriteRune(r)
+			} else {
+				hash = true
+				l.mark(-1)
+			}
 		default:
 			if !hash {
 				l.unread()
